@@ -25,6 +25,8 @@ pub open spec fn flip(s: Seq<bool>, v: int) -> Seq<bool> { s.update(v, !s[v]) }
 #[verifier::external_type_specification] #[verifier::external_body] pub struct ExSymbolicContext(SymbolicContext);
 #[verifier::external_type_specification] #[verifier::external_body] pub struct ExSymbolicAsyncGraph(SymbolicAsyncGraph);
 #[verifier::external_type_specification] #[verifier::external_body] pub struct ExGraphColoredVertices(GraphColoredVertices);
+#[verifier::external_type_specification] #[verifier::external_body] pub struct ExGraphVertices(GraphVertices);
+#[verifier::external_type_specification] #[verifier::external_body] pub struct ExGraphColors(GraphColors);
 #[verifier::external_type_specification] #[verifier::external_body] pub struct ExBooleanNetwork(BooleanNetwork);
 #[verifier::external_type_specification] #[verifier::external_body] pub struct ExVariableId(VariableId);
 #[verifier::external_type_specification] #[verifier::external_body] pub struct ExVariableIdIterator(VariableIdIterator);
@@ -195,7 +197,34 @@ pub open spec fn has_succ(g: &SymbolicAsyncGraph, p: Pt) -> bool { exists|v: int
 pub assume_specification[ FixedPoints::symbolic ](g: &SymbolicAsyncGraph, r: &GraphColoredVertices) -> (res: GraphColoredVertices)
     ensures forall|p: Pt| #[trigger] gv(&res).contains(p) <==> unit_of(g).contains(p) && gv(r).contains(p) && !has_succ(g, p);
 
+// projections of a coloured vertex set and the mixed set operations (lib-param-bn: vertices() / colors() project the BDD onto the state /
+// parameter variables; minus_vertices etc. combine with the cylinder of the projection)
+pub uninterp spec fn gvv(v: &GraphVertices) -> ISet<Seq<bool>>;
+pub uninterp spec fn gvc(c: &GraphColors) -> ISet<int>;
+pub assume_specification[ GraphColoredVertices::vertices ](a: &GraphColoredVertices) -> (r: GraphVertices)
+    ensures forall|s: Seq<bool>| #[trigger] gvv(&r).contains(s) <==> exists|p: Pt| #[trigger] gv(a).contains(p) && p.s == s;
+pub assume_specification[ GraphColoredVertices::colors ](a: &GraphColoredVertices) -> (r: GraphColors)
+    ensures forall|c: int| #[trigger] gvc(&r).contains(c) <==> exists|p: Pt| #[trigger] gv(a).contains(p) && p.c == c;
+pub assume_specification[ GraphColoredVertices::minus_vertices ](a: &GraphColoredVertices, v: &GraphVertices) -> (r: GraphColoredVertices)
+    ensures forall|p: Pt| #[trigger] gv(&r).contains(p) <==> gv(a).contains(p) && !gvv(v).contains(p.s);
+pub assume_specification[ GraphColoredVertices::intersect_vertices ](a: &GraphColoredVertices, v: &GraphVertices) -> (r: GraphColoredVertices)
+    ensures forall|p: Pt| #[trigger] gv(&r).contains(p) <==> gv(a).contains(p) && gvv(v).contains(p.s);
+pub assume_specification[ GraphColoredVertices::minus_colors ](a: &GraphColoredVertices, c: &GraphColors) -> (r: GraphColoredVertices)
+    ensures forall|p: Pt| #[trigger] gv(&r).contains(p) <==> gv(a).contains(p) && !gvc(c).contains(p.c);
+pub assume_specification[ GraphColoredVertices::intersect_colors ](a: &GraphColoredVertices, c: &GraphColors) -> (r: GraphColoredVertices)
+    ensures forall|p: Pt| #[trigger] gv(&r).contains(p) <==> gv(a).contains(p) && gvc(c).contains(p.c);
+pub assume_specification[ SymbolicContext::mk_constant ](c: &SymbolicContext, v: bool) -> (r: Bdd)
+    ensures forall|p: Pt| #[trigger] bv(&r).contains(p) <==> v && shaped(p);
 // API without a contract: calls are accepted, nothing is known about the result
+pub assume_specification[ SymbolicAsyncGraph::post ](g: &SymbolicAsyncGraph, s: &GraphColoredVertices) -> (r: GraphColoredVertices);
+pub assume_specification[ SymbolicAsyncGraph::var_post ](g: &SymbolicAsyncGraph, v: VariableId, s: &GraphColoredVertices) -> (r: GraphColoredVertices);
+pub assume_specification[ SymbolicAsyncGraph::can_post ](g: &SymbolicAsyncGraph, s: &GraphColoredVertices) -> (r: GraphColoredVertices);
+pub assume_specification[ SymbolicAsyncGraph::can_pre ](g: &SymbolicAsyncGraph, s: &GraphColoredVertices) -> (r: GraphColoredVertices);
+pub assume_specification[ SymbolicAsyncGraph::reach_backward ](g: &SymbolicAsyncGraph, s: &GraphColoredVertices) -> (r: GraphColoredVertices);
+pub assume_specification[ SymbolicAsyncGraph::reach_forward ](g: &SymbolicAsyncGraph, s: &GraphColoredVertices) -> (r: GraphColoredVertices);
+pub assume_specification[ SymbolicAsyncGraph::trap_forward ](g: &SymbolicAsyncGraph, s: &GraphColoredVertices) -> (r: GraphColoredVertices);
+pub assume_specification[ SymbolicAsyncGraph::trap_backward ](g: &SymbolicAsyncGraph, s: &GraphColoredVertices) -> (r: GraphColoredVertices);
+pub assume_specification[ SymbolicAsyncGraph::mk_unit_colors ](g: &SymbolicAsyncGraph) -> (r: GraphColors);
 pub assume_specification[ GraphColoredVertices::approx_cardinality ](a: &GraphColoredVertices) -> (r: f64);
 pub assume_specification[ GraphColoredVertices::exact_cardinality ](a: &GraphColoredVertices) -> (r: u64);
 pub assume_specification[ GraphColoredVertices::symbolic_size ](a: &GraphColoredVertices) -> (r: usize);
